@@ -37,8 +37,8 @@ SPEC = {
     "continuation offset, that the model of the generation loop stops at the least iteration boundary whose "
     "cumulative row count reaches N, executes whole iterations only, counts relative to the continuation, runs "
     "exactly k iterations for a repetition target, always terminates for a named target, and raises the progress "
-    "error at the boundary of an empty iteration (with the one-iteration delay D20 and the empty-name hole D28 "
-    "proved as refutation witnesses); tied to api.py / data_generator_runtime.py by bridging lemmas over "
+    "error at the very boundary of an empty iteration, fresh or continued, and rejects every target no template "
+    "creates, the empty name included (the former defects D20 / D28 are repaired and kept as regression inputs); tied to api.py / data_generator_runtime.py by bridging lemmas over "
     "regenerated pins and by differential runs of the real methods and of whole recipes.",
     "level_note": "Trusted: Lean kernel; py2lean; the harness; CPython ints. An iteration is abstracted to its "
     "row count for the target table: that the interpreter creates exactly the rows the recipe prescribes is "
@@ -193,7 +193,7 @@ def real_fn(case):
 
 def fn_requests(case, log):
     # (the function level has no target validation: the target is always among the tables)
-    reqs = [{"m": "c07.run", "tables": [case["rows_table"], "Other", case["tname"] or "T"],
+    reqs = [{"m": "c07.run", "tables": [case["rows_table"], "Other", case["tname"] if case["tname"] is not None else "T"],
              "tname": case["tname"], "count": case["count"],
              "cont": case["cont"] if case["rows_table"] == case["tname"] else None,
              "r": case["r"] if case["rows_table"] == case["tname"] else [], "rdef": case["rdef"] if case["rows_table"] == case["tname"] else 0,
